@@ -383,6 +383,7 @@ func Run(r *common.Run) error {
 	// corpus first
 	r.Mark("case corpus")
 	zeroFormCase(c)
+	binContentIDCase(c)
 	for _, w := range witnessDocs {
 		if e := find(w.typ); e != nil {
 			c.xmlCase(e, []byte(w.doc), "corpus")
@@ -449,6 +450,7 @@ func Run(r *common.Run) error {
 	// stream decoders (Unwrap on arbitrary documents) and inserting transformers
 	streamCases(c)
 	pageIterCases(c)
+	sessIterCases(c)
 	// pubsub request builders on a real session
 	nPub := r.Pick(60, 600)
 	for k := 0; k < nPub; k++ {
